@@ -71,7 +71,7 @@ structure ChoicesOk (ch : Choices) : Prop where
   dgran : 0 < ch.dateGranularity ∧ ch.dateGranularity < (2:Int) ^ 31
   latOff : -(2:Int) ^ 61 ≤ ch.latOffset ∧ ch.latOffset ≤ (2:Int) ^ 61
   lonOff : -(2:Int) ^ 61 ≤ ch.lonOffset ∧ ch.lonOffset ≤ (2:Int) ^ 61
-  pad : ∀ s ∈ ch.tablePrefix, s.length ≤ 1024
+  pad : ∀ s ∈ ch.tablePrefix, StrOk s
   extrasWF : ∀ k, ∀ e ∈ ch.extras k, e.WF
   extrasUnknown : ∀ k, ∀ e ∈ ch.extras k, knownOf k e = false
 
@@ -106,7 +106,7 @@ def ObjRep (ch : Choices) : Object → Prop
   | .node m l => MetaRep ch m ∧ LocOk l ∧ (if m.visible then LocRep ch l else l = Location.undefined)
   | .way m ns => MetaRep ch m ∧ (∀ n ∈ ns, IdOk n.ref ∧ LocOk n.location) ∧ DeltaRep 0 (ns.map (·.ref)) ∧
       ((∃ n ∈ ns, n.location ≠ Location.undefined) → ∀ n ∈ ns, LocRep ch n.location)
-  | .relation m ms => MetaRep ch m ∧ RelInDomain ms ∧ DeltaRep 0 (ms.map (·.ref)) ∧ ∀ x ∈ ms, x.role.length ≤ 1024
+  | .relation m ms => MetaRep ch m ∧ RelInDomain ms ∧ DeltaRep 0 (ms.map (·.ref)) ∧ ∀ x ∈ ms, StrOk x.role
   | .changeset .. => False
 
 /-- string `s` is referenced through a valid index ≥ 1 of the block's table -/
